@@ -1,4 +1,4 @@
-//@unit U17 props=C01,C02,C13,C14 rlimit=100 SendChannelReliable::get_packets_to_send as a whole: prologue, loop summary (rule D18), final flush (renet/src/channel/reliable.rs)
+//@unit U17 props=C01,C02,C03,C11,C13,C14 rlimit=100 SendChannelReliable::get_packets_to_send as a whole: prologue, loop summary (rule D18), final flush (renet/src/channel/reliable.rs)
 #![feature(allocator_api)]
 #![allow(unused_imports, dead_code, unused_variables, unused_mut)]
 use vstd::prelude::*;
@@ -76,7 +76,9 @@ pub fn reliable_send_loop_step(message_id: u64, unacked_message: &mut UnackedMes
         old(unacked_message).wf(), old(unacked_message).sent_not_after(current_time), message_id < 0x4000_0000_0000_0000,
         rloop_inv(rl(old(packets)@, old(small_messages)@, *old(small_messages_bytes), *old(packet_sequence), *old(available_bytes)), seq0, avail0, steps),
         0 <= seq0, 0 <= avail0, seq0 + avail0 + steps + 2 <= 0x4000_0000_0000_0000,
+        all_from_channel(old(packets)@, channel_id),
     ensures
+        all_from_channel(final(packets)@, channel_id),                                 // @C03,C11 loop_step.packets_labelled_with_this_channel
         final(unacked_message).wf(),                                                   // @C01,C02,C13 loop_step.element_invariant_kept
         final(unacked_message).msg() == old(unacked_message).msg(),                    // @C01,C02,C03 loop_step.bytes_untouched
         final(unacked_message).sent_not_after(current_time),                           // @C15 loop_step.timestamps_not_in_future
@@ -88,6 +90,7 @@ pub fn reliable_send_loop_step(message_id: u64, unacked_message: &mut UnackedMes
     proof {
         let post = rl(packets@, small_messages@, *small_messages_bytes, *packet_sequence, *available_bytes);
         lemma_rloop_step(pre, post, seq0, avail0, steps, channel_id, message_id, um, current_time, resend_time);
+        lemma_rloop_step_channel(pre.packets, post.packets, pre.seq, channel_id, message_id, um, current_time, resend_time, pre.small);
     }
 }
 
@@ -103,7 +106,9 @@ pub fn reliable_send_loop_summary(unacked_messages: &mut BTreeMap<u64, UnackedMe
         rloop_inv(rl(old(packets)@, old(small_messages)@, *old(small_messages_bytes), *old(packet_sequence), *old(available_bytes)),
             *old(packet_sequence) as int - old(packets)@.len(), *old(available_bytes) as int, 0),
         *old(packet_sequence) + *old(available_bytes) + old(unacked_messages)@.len() + 2 <= 0x4000_0000_0000_0000,
+        all_from_channel(old(packets)@, channel_id),
     ensures
+        all_from_channel(final(packets)@, channel_id),
         final(unacked_messages)@.dom() == old(unacked_messages)@.dom(),
         forall|id: u64| #[trigger] old(unacked_messages)@.contains_key(id) ==> final(unacked_messages)@[id].wf()
             && final(unacked_messages)@[id].msg() == old(unacked_messages)@[id].msg() && final(unacked_messages)@[id].sent_not_after(current_time),
@@ -143,6 +148,7 @@ impl SendChannelReliable {
                 lemma_all_sendable_push(pk1, pkf, seq0);
                 lemma_packets_payload_push(pk1, pkf);
                 assert(pk1.push(pkf) =~= packets@);
+                assert(all_from_channel(packets@, self.channel_id));
             }
 //@endfn
 }
